@@ -97,7 +97,12 @@ pub fn run_case_y(script: &Script, path: &str, step: usize, fault: Option<Fault>
             return out;
         }
     };
-    for a in &script.actions[..step] {
+    let two_ages = extras & 4 != 0 && step >= 1;
+    for (ai, a) in script.actions[..step].iter().enumerate() {
+        if two_ages && ai == step - 1 {
+            // an older reader: it begins one commit before the reader of the pre-state
+            r.step(&Action::OpenReader, &Oracles::NONE);
+        }
         let v = r.step(a, &Oracles::NONE);
         if !v.is_empty() || r.poisoned {
             out.violations.push(Violation::new("harness", format!("script prefix failed: {:?}", v)));
@@ -205,6 +210,14 @@ pub fn run_case_y(script: &Script, path: &str, step: usize, fault: Option<Fault>
     }
     // follow-up transactions on the same handle
     for (i, f) in followups().iter().enumerate() {
+        if two_ages && i == 1 {
+            // the older reader ends after the first writer that followed the failure has begun and
+            // committed; the younger one stays over the remaining follow-ups
+            for mut x in r.step(&Action::CloseReader(0), &Oracles::NONE) {
+                x.class = format!("close_older_reader:{}", x.class);
+                out.violations.push(x);
+            }
+        }
         if let Some((k, sf)) = &second {
             if *k == i {
                 let pre2 = r.model.clone();
@@ -398,6 +411,16 @@ pub fn worker(idx: usize) {
                             viols.push(json!([ci, k.name(), mname, format!("with_reader:{}", v.class), format!("(a reader opened before the failing commit is kept open) {}", v.detail), "reader"]));
                         }
                     }
+                    if sc.cfg.num_pages >= 64 && step >= 1 && *k == Kind::Fsync {
+                        // two readers of different ages opened before the failing commit; the older
+                        // one ends after the first follow-up commit
+                        cases += 1;
+                        let outr = run_case_y(sc, &path2, step, Some(f), None, true, false, 4);
+                        *outcomes.entry(format!("{}:{}+readers2", k.name(), outr.outcome)).or_insert(0) += 1;
+                        for v in outr.violations {
+                            viols.push(json!([ci, k.name(), mname, format!("with_two_readers:{}", v.class), format!("(two readers of different ages are open across the failing commit, the older one ends after the first follow-up commit) {}", v.detail), "readers2"]));
+                        }
+                    }
                     if *k == Kind::Mmap || *k == Kind::Fallocate || *k == Kind::Ftruncate {
                         // a failed growth step, then a commit that needs more than one step
                         cases += 1;
@@ -561,7 +584,8 @@ pub fn replay(v: &Value) -> i32 {
     let kind = Kind::from_name(v["kind"].as_str().unwrap_or("write")).unwrap_or(Kind::Write);
     let mode_name = v["mode"].as_str().unwrap_or("EIO").to_string();
     let second = v["second"].as_u64();
-    let with_reader = v["second"].as_str() == Some("reader");
+    let two_readers = v["second"].as_str() == Some("readers2");
+    let with_reader = v["second"].as_str() == Some("reader") || two_readers;
     let rollback_first = v["second"].as_str() == Some("rollback");
     let v_second_is_huge = v["second"].as_str() == Some("huge");
     let r = crate::fresh::on_fresh_thread(move || {
@@ -589,7 +613,7 @@ pub fn replay(v: &Value) -> i32 {
         let reader_between = second.map(|cj| cj >= 100_000).unwrap_or(false);
         let second_short = second.map(|cj| cj % 100_000 >= 50_000).unwrap_or(false);
         let second = second.map(|cj| cj % 50_000);
-        let out = run_case_y(sc, &path, step, Some(f), second.map(|cj| { let m2 = if second_short { FaultMode::ShortThenErrno(40, libc::EIO) } else { FaultMode::Errno(libc::EIO) }; if cj >= 1000 { ((cj / 1000 - 1) as usize, Fault::at(cj % 1000, m2)) } else { (1usize, Fault::at(cj, m2)) } }), with_reader, rollback_first, (reader_between as u8) | ((huge as u8) << 1));
+        let out = run_case_y(sc, &path, step, Some(f), second.map(|cj| { let m2 = if second_short { FaultMode::ShortThenErrno(40, libc::EIO) } else { FaultMode::Errno(libc::EIO) }; if cj >= 1000 { ((cj / 1000 - 1) as usize, Fault::at(cj % 1000, m2)) } else { (1usize, Fault::at(cj, m2)) } }), with_reader, rollback_first, (reader_between as u8) | ((huge as u8) << 1) | ((two_readers as u8) << 2));
         println!("outcome of the failed commit: {}", out.outcome);
         for x in &out.violations {
             println!("   !! {}: {}", x.class, x.detail);
